@@ -228,7 +228,10 @@ class ParserText(ParserBase):
                 floating_point_found = True
                 continue
 
-            value.append(converter(self._parsable[last_item_offset:item_offset]))
+            try:
+                value.append(converter(self._parsable[last_item_offset:item_offset]))
+            except ValueError as e:
+                six.raise_from(InvalidValue(self._parsable[last_item_offset:item_offset], type(self), name), e)
 
             if item_offset == len(self._parsable) or (item_num is not None and len(value) == item_num):
                 break
